@@ -150,6 +150,12 @@ func (ls *lifeScenario) body(x *Exec) {
 			// two complete commands and the first half of a third in one segment
 			req := append(append(vm.Encode("SET", "p1", "1"), vm.Encode("SET", "p2", "2")...), vm.Encode("SET", "p3", "3")[:9]...)
 			w.c.Write(req)
+		case "mid-command-100", "mid-command-8191", "mid-command-8192", "mid-command-8193", "mid-command-16384", "mid-command-20000":
+			// the client is part-way through one large command: exactly so many bytes of a 40 000 byte SET
+			// have arrived (multiples of the emulator's 8192-byte read buffer among them)
+			n := 0
+			fmt.Sscanf(st[len("mid-command-"):], "%d", &n)
+			w.c.Write(vm.Encode("SET", "big", strings.Repeat("V", 40000))[:n])
 		case "multi":
 			w.call("MULTI")
 			if r, e := w.call("SET", "m1", "queued"); e != "" || r.S != "QUEUED" {
@@ -384,7 +390,7 @@ func lifeScenarios(tier string) []*Scenario {
 		out = append(out, ls.scenario())
 	}
 	// every single client state at termination
-	for _, st := range []string{"idle", "fresh", "pipeline", "multi", "blocked", "blocked-timeout", "not-reading"} {
+	for _, st := range []string{"idle", "fresh", "pipeline", "multi", "blocked", "blocked-timeout", "not-reading", "mid-command-100", "mid-command-8192", "mid-command-16384"} {
 		add(&lifeScenario{name: "close/" + st, states: []string{st}, restart: true})
 	}
 	add(&lifeScenario{name: "close/no-clients", restart: true})
@@ -418,6 +424,9 @@ func lifeScenarios(tier string) []*Scenario {
 			add(&lifeScenario{name: "churn/" + strings.Join(sts, "+"), states: sts, restart: true})
 		}
 		add(&lifeScenario{name: "churn/race/gone+gone+idle", states: []string{"gone", "gone", "idle"}, racing: "command"})
+		for _, st := range []string{"mid-command-8191", "mid-command-8193", "mid-command-20000"} {
+			add(&lifeScenario{name: "close/" + st, states: []string{st}, restart: true})
+		}
 		add(&lifeScenario{name: "close/not-reading+idle+blocked", states: []string{"not-reading", "idle", "blocked"}, restart: true})
 		add(&lifeScenario{name: "race/command/not-reading", states: []string{"idle", "not-reading"}, racing: "command", restart: true})
 		// repeated cycles on one port
